@@ -667,18 +667,29 @@ class ChildKeys(Obj):
 class SKey(Obj):
     cls = "SourceKey"
 
-    def __init__(self, ctx, vals, of_child=None):
+    def __init__(self, ctx, vals, of_child=None, fields=None):
+        """fields: [(name, type)] as declared in the struct this run (read from the AST), so that renaming or merging
+        members does not put the function out of reach"""
         Obj.__init__(self, name="source_key")
         self.of_child = of_child
-        for f in SK_FIELDS:
-            if f == "structural_children":
+        self.fields = fields if fields is not None else [(f, "bool" if f == "captured_boundary" else "") for f in SK_FIELDS]
+        self.children_field = None
+        for i, (f, ty) in enumerate(self.fields):
+            if "SourceKey" in ty and "vector" in ty or (fields is None and f == "structural_children"):
                 ctx.store[(self.oid, f)] = ChildKeys(ctx)
+                self.children_field = f
             else:
                 v = vals.get(f)
                 if v is None:
-                    d = SK_DEFAULT[f]
-                    v = z3.BoolVal(d) if isinstance(d, bool) else z3.IntVal(d)
+                    if f in SK_DEFAULT and fields is None:
+                        d = SK_DEFAULT[f]
+                        v = z3.BoolVal(d) if isinstance(d, bool) else z3.IntVal(d)
+                    else:
+                        v = z3.BoolVal(False) if ty in ("bool", "_Bool") else z3.IntVal(-100 - i)   # default member initialiser
                 ctx.store[(self.oid, f)] = v
+
+    def scalar_fields(self, ctx):
+        return [ctx.store[(self.oid, f)] for f, _ in self.fields if f != self.children_field]
 
 
 class PortObj6(Obj):
@@ -731,6 +742,16 @@ class SourceKeyFor(Kernel):
     property_ids = ("C06",)
     scope = {"lo": 0, "hi": 3}
     title = "source_key_for: the interning key of a source carries every attribute that distinguishes two ports"
+    extra_dumps = ((TU, "SourceKey"),)
+
+    def locate(self, dumps):
+        fn = Kernel.locate(self, dumps)
+        recs = [r for r in extract.find_record(dumps[(TU, "SourceKey")], "SourceKey") if r.get("completeDefinition")]
+        if not recs:
+            raise Gap("record SourceKey not found")
+        self.key_fields = [(c["name"], c.get("type", {}).get("qualType", "")) for c in recs[0].get("inner", [])
+                           if c.get("kind") == "FieldDecl"]
+        return fn
 
     def attr(self, nm):
         return z3.Int("port_" + nm)
@@ -751,11 +772,11 @@ class SourceKeyFor(Kernel):
                     return a[0]
                 vals = {}
                 from cxxvc.interp import DEFAULT_ARG
-                for f, v in zip(SK_FIELDS, a):
+                for (f, _), v in zip(self.key_fields, a):
                     if v is DEFAULT_ARG or isinstance(v, Obj):
                         continue
                     vals[f] = v
-                return SKey(I.ctx, vals)
+                return SKey(I.ctx, vals, fields=self.key_fields)
             return mk
         return Kernel.ctor_handler(self, qt, node)
 
@@ -765,16 +786,21 @@ class SourceKeyFor(Kernel):
                 p = I.ctx.rv(args[0])
                 if not isinstance(p, PortObj6) or p.child is None:
                     raise Gap("recursive call on something that is not a child port")
-                return SKey(I.ctx, {}, of_child=p.child)
+                return SKey(I.ctx, {}, of_child=p.child, fields=self.key_fields)
             return rec
         return Kernel.function_handler(self, name, node, callee_node)
 
     def key_local(self, I):
         return self.local_obj(I, "key")
 
+    def children_of(self, ctx, key):
+        if key.children_field is None:
+            raise Gap("SourceKey has no member holding the children's keys")
+        return ctx.store[(key.oid, key.children_field)]
+
     def inv(self, I, ctx):
         key = self.key_local(I)
-        sc = ctx.store[(key.oid, "structural_children")]
+        sc = self.children_of(ctx, key)
         L, D = ctx.store[(sc.oid, "len")], ctx.store[(sc.oid, "data")]
         pos = self.range_pos(I)
         yield "children-keyed-so-far,in-order", z3.And(L == pos, pos >= 0, pos <= self.nchildren,
@@ -782,7 +808,7 @@ class SourceKeyFor(Kernel):
 
     def frame(self, I, ctx):
         key = self.key_local(I)
-        sc = ctx.store[(key.oid, "structural_children")]
+        sc = self.children_of(ctx, key)
         return [Loc((sc.oid, "len")), Loc((sc.oid, "data"))]
 
     @property
@@ -793,24 +819,29 @@ class SourceKeyFor(Kernel):
         ctx = I.ctx
         if not isinstance(ret, SKey):
             raise Gap("source_key_for did not return a SourceKey")
-        f = lambda nm: ctx.store[(ret.oid, nm)]
+        # "in the key": some member of the returned key holds the attribute (which member is the code's business; equality of
+        # keys is member-wise, InstanceKeyEq above, so any member will do)
+        fields = ret.scalar_fields(ctx)
+
+        def in_key(v):
+            return z3.Or(*[fv == v for fv in fields if z3.is_bool(fv) == z3.is_bool(v)])
         kind = self.attr("kind")
-        sc = f("structural_children")
+        sc = self.children_of(ctx, ret)
         L, D = ctx.store[(sc.oid, "len")], ctx.store[(sc.oid, "data")]
         ctx.oblige("ensures.kind-and-schema-in-the-key[C06 nodes are shared only when node type, arguments and inputs are identical]",
-                   z3.And(f("kind") == kind, f("schema") == self.attr("schema")), kind="post-normal")
+                   z3.And(in_key(kind), in_key(self.attr("schema"))), kind="post-normal")
         ctx.oblige("ensures.peered-source:producer,output-path-and-output-kind-in-the-key[C06 different inputs are never shared]",
-                   z3.Implies(kind == 1, z3.And(f("peered_node") == self.attr("peered_node"), f("peered_path") == self.attr("peered_path"),
-                                                f("peered_output_kind") == self.attr("peered_output_kind"))), kind="post-normal")
+                   z3.Implies(kind == 1, z3.And(in_key(self.attr("peered_node")), in_key(self.attr("peered_path")),
+                                                in_key(self.attr("peered_output_kind")))), kind="post-normal")
         ctx.oblige("ensures.structural-source:every-child-keyed-once,in-order[C06]",
                    z3.Implies(kind == 2, z3.And(L == self.nchildren, z3.ForAll([qk], z3.Implies(z3.And(qk >= 0, qk < L), D[qk] == qk)))),
                    kind="post-normal")
         ctx.oblige("ensures.boundary-source:argument,path-and-capture-flag-in-the-key[C06]",
-                   z3.Implies(kind == 3, z3.And(f("boundary_arg") == z3.If(self.captured, self.attr("capture_index"), self.attr("arg_index")),
-                                                f("boundary_path") == self.attr("boundary_path"), f("captured_boundary") == self.captured)),
+                   z3.Implies(kind == 3, z3.And(in_key(z3.If(self.captured, self.attr("capture_index"), self.attr("arg_index"))),
+                                                in_key(self.attr("boundary_path")), in_key(self.captured))),
                    kind="post-normal")
         ctx.oblige("ensures.delayed-source:state-and-path-in-the-key[C06]",
-                   z3.Implies(kind == 4, z3.And(f("delayed_state") == self.attr("delayed_state"), f("delayed_path") == self.attr("delayed_path"))),
+                   z3.Implies(kind == 4, z3.And(in_key(self.attr("delayed_state")), in_key(self.attr("delayed_path")))),
                    kind="post-normal")
 
 
